@@ -27,6 +27,7 @@ struct WConfig {
   bool madvise = false;
   bool by_path = false;  // mtbl_writer_init(path) instead of _init_fd(memfd)
   bool null_opts = false;  // pass NULL writer options (all defaults)
+  unsigned long long sparse_off = 0;  // when > 0: the writer starts at this offset of a sparse file (the hole stands for foreign bytes)
 
   size_t eff_block_size() const {
     if (null_opts || !block_size_set) return 8192;
@@ -35,13 +36,14 @@ struct WConfig {
   int eff_restart() const { return null_opts ? 16 : restart; }
   int eff_comp() const { return null_opts ? 2 : comp; }
   bool nondefault() const {
-    return !null_opts && (comp != 2 || level_set || eff_block_size() != 8192 || restart != 16 || pool >= 0 || prefix_len || madvise);
+    return !null_opts && (comp != 2 || level_set || eff_block_size() != 8192 || restart != 16 || pool >= 0 || prefix_len || madvise || sparse_off);
   }
   std::string ser() const {
     Out o;
     o << "config comp=" << comp << " level_set=" << level_set << " level=" << level << " block_size=" << block_size
       << " block_size_set=" << block_size_set << " restart=" << restart << " pool=" << pool << " prefix_len=" << prefix_len
       << " prefix_seed=" << prefix_seed << " madvise=" << madvise << " by_path=" << by_path << " null_opts=" << null_opts;
+    if (sparse_off) o << " sparse_off=" << sparse_off;
     return o.str();
   }
   static WConfig parse(const std::vector<std::string> &row) {
@@ -63,6 +65,7 @@ struct WConfig {
       else if (k == "madvise") c.madvise = n;
       else if (k == "by_path") c.by_path = n;
       else if (k == "null_opts") c.null_opts = n;
+      else if (k == "sparse_off") c.sparse_off = toull(v);
     }
     return c;
   }
@@ -284,6 +287,20 @@ inline bytes fd_contents(int fd) {
   }
   return b;
 }
+// bytes of the file from absolute offset `base` to the end (for tables written behind a huge sparse hole)
+inline bytes fd_tail(int fd, unsigned long long base) {
+  struct stat st;
+  fstat(fd, &st);
+  if ((unsigned long long)st.st_size < base) return bytes();
+  bytes b((size_t)((unsigned long long)st.st_size - base), '\0');
+  size_t off = 0;
+  while (off < b.size()) {
+    ssize_t n = pread(fd, &b[off], b.size() - off, (off_t)(base + off));
+    if (n <= 0) break;
+    off += (size_t)n;
+  }
+  return b;
+}
 inline int fd_from_bytes(const bytes &b, const char *name = "vf-img") {
   int fd = new_memfd(name);
   write_all_fd(fd, b);
@@ -302,7 +319,14 @@ inline int write_table(const WConfig &c, const KVs &entries, std::vector<bool> *
   int fd = -1;
   std::string path;
   bytes pre = c.prefix_bytes();
-  if (c.by_path && pre.empty()) {
+  if (c.sparse_off) {
+    fd = new_memfd("vf-sparse");
+    if (ftruncate(fd, (off_t)c.sparse_off) || lseek(fd, (off_t)c.sparse_off, SEEK_SET) != (off_t)c.sparse_off) {
+      perror("sparse memfd");
+      _exit(3);
+    }
+    w = mtbl_writer_init_fd(fd, wo);
+  } else if (c.by_path && pre.empty()) {
     ensure_tmpdir();
     path = g_tmpdir + "/t" + std::to_string(getpid()) + "_" + std::to_string(g_path_counter++) + ".mtbl";
     unlink(path.c_str());
